@@ -466,6 +466,10 @@ def replay(pid, case):
     finally:
         B.close()
     vs = validate(chk, [new], 'replay')[new['tid']]
+    for v in vs:
+        k = chk.match_known(signature(new, v))
+        if k is not None:
+            print(f"KNOWN-FINDING: property={pid} {k['id']}: {k['what']}")
     bad = [v for v in vs if chk.match_known(signature(new, v)) is None]
     for v in bad:
         print(f'VIOLATION property={pid} replay=(given)   # clause {v["verdict"]} at event {v["at"]}')
